@@ -78,14 +78,25 @@ class Run:
         out = self.path("vh-race" if race else "vh")
         if os.path.exists(out):
             return out
+        hdir = HARNESS
+        if os.path.realpath(REPO) != "/repo":
+            # checking another tree (VERIF_REPO): build from a private copy of the harness module
+            hdir = self.path("harness-src")
+            if not os.path.exists(hdir):
+                shutil.copytree(HARNESS, hdir)
+                gm = os.path.join(hdir, "go.mod")
+                with open(gm) as f:
+                    t = f.read().replace("=> /repo", "=> " + os.path.realpath(REPO))
+                with open(gm, "w") as f:
+                    f.write(t)
         gosum = os.path.join(REPO, "go.sum")
         if os.path.exists(gosum):
-            shutil.copy(gosum, os.path.join(HARNESS, "go.sum"))
+            shutil.copy(gosum, os.path.join(hdir, "go.sum"))
         cmd = ["go", "build", "-tags", "verif"]
         if race:
             cmd.append("-race")
         cmd += ["-o", out, "./cmd/vh"]
-        p = subprocess.run(cmd, cwd=HARNESS, env=GOENV, stdout=subprocess.PIPE, stderr=subprocess.STDOUT, text=True)
+        p = subprocess.run(cmd, cwd=hdir, env=GOENV, stdout=subprocess.PIPE, stderr=subprocess.STDOUT, text=True)
         if p.returncode != 0:
             # a tree that does not compile is not a property violation
             raise Infra("harness/repository build failed:\n" + p.stdout[-4000:])
@@ -148,7 +159,9 @@ class Run:
         cmd += list(extra_args)
         cmd += [module + ".tla"]
         env = dict(os.environ)
-        opts = "-Xss64m"
+        tmpd = os.path.join(d, "jtmp")
+        os.makedirs(tmpd, exist_ok=True)
+        opts = "-Xss64m -Djava.io.tmpdir=" + tmpd
         if depth_first:
             opts += " -Dtlc2.tool.queue.IStateQueue=StateDeque"
         env["JAVA_TOOL_OPTIONS"] = (env.get("JAVA_TOOL_OPTIONS", "") + " " + opts).strip()
@@ -206,6 +219,8 @@ class Run:
             seen.add(f["id"])
             print("KNOWN-FINDING: property=%s %s" % (self.prop, f["what"]))
         rdir = os.path.join(VERIF, "replays", self.prop)
+        if os.path.realpath(REPO) != "/repo":
+            rdir = os.path.join(tempfile.gettempdir(), "replays-other-tree", self.prop)
         printed = set()
         for c, _ in viol:
             body = json.dumps({"property": self.prop, "kind": c["kind"], "what": c["what"], "sig": c["sig"],
@@ -236,8 +251,11 @@ class Run:
         cov.update(self.extra)
         ev = {"property_id": self.prop, "tier": self.tier, "seed": self.seed, "level": level, "coverage": cov,
               "assumptions": self.assumptions, "wall_s": round(time.time() - self.t0, 1), "violations": len(printed)}
-        os.makedirs(os.path.join(VERIF, "evidence"), exist_ok=True)
-        with open(os.path.join(VERIF, "evidence", self.prop + ".json"), "w") as f:
+        evdir = os.path.join(VERIF, "evidence")
+        if os.path.realpath(REPO) != "/repo":
+            evdir = os.environ.get("VERIF_EVIDENCE_DIR", tempfile.gettempdir())  # another tree: leave the real evidence alone
+        os.makedirs(evdir, exist_ok=True)
+        with open(os.path.join(evdir, self.prop + ".json"), "w") as f:
             json.dump(ev, f, indent=1, default=str)
         self.log("done: states=%d transitions=%d traces=%d candidates=%d known=%d new=%d" % (
             self.states, self.transitions, self.traces, len(self.candidates), len(seen), len(printed)))
